@@ -331,6 +331,26 @@ func boolEdges(b ssa.Value, want bool) (yes, no []edge) {
 				yes = append(yes, y...)
 				no = append(no, n...)
 			}
+		case *ssa.Phi:
+			// ok := a && b   /   ok := a || b  stored in a variable: the phi's
+			// other incoming values are the constant !want, so phi == want
+			// implies b == want (one-directional: only "yes" edges follow).
+			if x == b {
+				continue
+			}
+			all := true
+			for _, e := range x.Edges {
+				if e == b {
+					continue
+				}
+				if cv, isC := constBool(e); !isC || cv == want {
+					all = false
+				}
+			}
+			if all {
+				y, _ := boolEdges(x, want)
+				yes = append(yes, y...)
+			}
 		}
 	}
 	return
@@ -450,18 +470,22 @@ func errNilness(v ssa.Value, at *ssa.BasicBlock, depth int) nilState {
 		return errNilness(x.X, at, depth+1)
 	case *ssa.Phi:
 		st := nilState(-1)
+		mixed := false
 		for i, e := range x.Edges {
+			if e == ssa.Value(x) {
+				continue
+			}
 			s := errNilness(e, x.Block().Preds[i], depth+1)
 			if st == -1 {
 				st = s
 			} else if st != s {
-				return maybeNil
+				mixed = true
 			}
 		}
-		if st == -1 {
-			return maybeNil
+		if st != -1 && !mixed && st != maybeNil {
+			return st
 		}
-		return st
+		// otherwise fall through to the dominance test on the phi itself
 	}
 	// dominated by v != nil ?
 	yes, no := edgesWhere(v, isNil)
